@@ -1092,10 +1092,10 @@ theorem one_final_chat_fixedD (v : Variant) (hv : v.incomplete = true) (f : Faul
 /-- **witness of the seeded change C17-D's class**: a complete run whose `context` tokenization fails:
     stream = chunk, then the error (no done message); non-stream = the error. -/
 theorem tokenize_failure_after_done :
-    generateStreamH ⟨false, false, true, false⟩ (.tok sBoom) false false 3 [nd sHi, fin] .ok
+    generateStreamH ⟨false, true, true, true⟩ (.tok sBoom) false false 3 [nd sHi, fin] .ok
       = .ok [.msg ⟨sHi, ⟨true, false, [], 0, 0⟩, none⟩, .err sBoom]
-    ∧ generateOnceH ⟨false, false, true, false⟩ (.tok sBoom) false false 3 [nd sHi, fin] .ok = .error sBoom
-    ∧ generateStreamH ⟨false, false, true, false⟩ (.tok sBoom) true false 3 [nd sHi, fin] .ok
+    ∧ generateOnceH ⟨false, true, true, true⟩ (.tok sBoom) false false 3 [nd sHi, fin] .ok = .error sBoom
+    ∧ generateStreamH ⟨false, true, true, true⟩ (.tok sBoom) true false 3 [nd sHi, fin] .ok
       = .ok [.msg ⟨sHi, ⟨true, false, [], 0, 0⟩, none⟩, .msg ⟨[], ⟨true, true, sStop, 5, 7⟩, none⟩] :=
   ⟨rfl, rfl, rfl⟩
 
@@ -1686,5 +1686,613 @@ theorem openai_cmpl_stream_finish_usage (raw usage : Bool) (pl : Nat) (cs : List
           = if usage then [usageOf (genMsgOf raw pl (texts init ++ l.content) l).info] else [] := oaTail_usages usage _
       rw [this]; simp [oaUsages, OaEv.usage?]
 
+
+/-! ## Round 7: the handler level (`*H`, every variant) coincides with the base functions on protocol runs -/
+
+theorem lastOr_chatMsgOf_calls (cs : List Chunk) (d : ChatMsg) (hd : d.calls = []) :
+    (lastOr d (cs.map chatMsgOf)).calls = [] := by
+  induction cs generalizing d with
+  | nil => exact hd
+  | cons c cs ih => exact ih (chatMsgOf c) rfl
+
+/-- **the end-to-end handler models reduce to the base functions** (about which `generate_equiv`,
+    `generate_resplit`, `chat_equiv`, `chat_resplit`, `openai_*`, `client_*` are stated) on every
+    protocol-respecting run in which no fault fires — for EVERY variant (the F17d repair only adds an item
+    to runs that end without a done chunk, which `RunnerOK` excludes). -/
+theorem handlers_eq_base (v : Variant) (f : Fault) (raw hasCtx : Bool) (pl : Nat) (parse : Bytes → List Call)
+    (tools hist : Bool) (cs : List Chunk) (e : End) (h : RunnerOK cs e) :
+    (f.genPre hasCtx = none → (f.ctxTok = none ∨ raw = true) →
+      generateStreamH v f raw hasCtx pl cs e = .ok (genStream raw pl cs e)
+      ∧ generateOnceH v f raw hasCtx pl cs e = genOnce raw pl cs e)
+    ∧ (f.chatPre hist = none → (v.toolsStream && tools) = false →
+      chatStreamH v f parse tools hist cs e = .ok (chatStream parse tools cs e)
+      ∧ chatOnceH v f parse tools hist cs e = chatOnceV v.toolsIndex parse tools cs e) := by
+  have hend : ∀ {α : Type}, (endItemsV v.incomplete cs e : List (Item α)) = endItems e := by
+    intro α
+    cases h with
+    | done init l hnd hl => simp [endItemsV, endItems, sawDone_snoc init l hl]
+    | fail cs m hnd => rfl
+  constructor
+  · intro hp hq
+    have hcb : genCallbackT f.ctxTok raw pl cs [] = (genCallback raw pl cs []).map Item.msg := by
+      rcases hq with hq | hq
+      · rw [hq]; exact genCallbackT_none raw pl cs []
+      · exact genCallbackT_quiet _ _ _ _ _ (Or.inl hq)
+    simp only [generateStreamH, generateOnceH, hp, genItemsH, hcb, hend]
+    exact ⟨rfl, rfl⟩
+  · intro hp hv
+    simp only [chatStreamH, chatOnceH, hp, chatItemsH, hv, Bool.false_eq_true, ↓reduceIte, hend,
+      Bool.and_false]
+    refine ⟨rfl, ?_⟩
+    unfold chatOnceV chatOnce chatChan
+    rw [onceLoop_chan, chatCallback_unbuffered]
+    cases e with
+    | err m => rfl
+    | ok =>
+      have hcalls : (lastOr (default : ChatMsg) (cs.map chatMsgOf)).calls = [] := lastOr_chatMsgOf_calls cs default rfl
+      simp only
+      by_cases hc : (tools && !(parse (List.map (fun x : ChatMsg => x.content) (List.map chatMsgOf cs)).flatten).isEmpty) = true
+      · simp only [hc, ↓reduceIte]
+        cases v.toolsIndex <;> rfl
+      · simp only [hc, Bool.false_eq_true, ↓reduceIte]
+        cases v.toolsIndex
+        · rfl
+        · simp [hcalls, setIdx]
+
+/-! ## Round 7: through `api.Client`, every reply ends with exactly one final message or one error -/
+
+/-- number of terminal events a caller of `api.Client.Generate/Chat` observes: final (done) messages
+    delivered to its callback + the returned error -/
+def clientTerminals {α : Type} (done : α → Bool) (v : List α × Option Bytes) : Nat :=
+  (v.1.filter done).length + (if v.2.isSome then 1 else 0)
+
+theorem oneFinal_shape {α : Type} (done : α → Bool) (items : List (Item α)) (h : OneFinal done items) :
+    ∃ (pre : List α) (t : Item α), items = pre.map Item.msg ++ [t] ∧ (∀ m ∈ pre, done m = false)
+      ∧ terminal done t = true := by
+  induction items with
+  | nil => simp [OneFinal] at h
+  | cons it rest ih =>
+    obtain ⟨h1, h2⟩ := h
+    cases rest with
+    | nil =>
+      refine ⟨[], it, by simp, by simp, ?_⟩
+      simpa using h2
+    | cons it2 rest2 =>
+      have hlast : (it2 :: rest2).getLast?.map (terminal done) = some true := by
+        simpa [List.getLast?_cons_cons] using h2
+      have hcnt : 1 ≤ ((it2 :: rest2).filter (terminal done)).length := by
+        have hne : (it2 :: rest2) ≠ [] := by simp
+        have hmem := List.getLast_mem hne
+        have hterm : terminal done ((it2 :: rest2).getLast hne) = true := by
+          rw [List.getLast?_eq_some_getLast hne] at hlast
+          simpa using hlast
+        exact List.length_pos_of_mem (List.mem_filter.mpr ⟨hmem, hterm⟩)
+      have hit : terminal done it = false := by
+        cases ht : terminal done it
+        · rfl
+        · rw [List.filter_cons_of_pos ht, List.length_cons] at h1; omega
+      have h1' : ((it2 :: rest2).filter (terminal done)).length = 1 := by
+        rw [List.filter_cons_of_neg (by simp [hit])] at h1; exact h1
+      obtain ⟨pre, t, he, hpre, ht⟩ := ih ⟨h1', hlast⟩
+      cases it with
+      | err e => simp [terminal] at hit
+      | msg m =>
+        refine ⟨m :: pre, t, by simp [he], ?_, ht⟩
+        intro x hx
+        rcases List.mem_cons.mp hx with rfl | hx
+        · simpa [terminal] using hit
+        · exact hpre x hx
+
+/-- **through `api.Client`**: if the wire carries exactly one terminal item, last (`one_final_*`), its
+    error lines are not the empty string and every line is shorter than the scanner limit
+    (`client_view_fits`), then the caller observes exactly one terminal event — one final message
+    delivered and nil returned, or no final message and that error returned — and every message on the
+    wire was delivered. -/
+theorem client_one_final {α : Type} [Inhabited α] (done : α → Bool) (items : List (Item α))
+    (h : OneFinal done items) (hne : ∀ e ∈ errsOf items, e.isEmpty = false) :
+    clientTerminals done (clientView items) = 1
+    ∧ (clientView items).1 = msgsOf items
+    ∧ (clientView items).2 = (errsOf items).head? := by
+  obtain ⟨pre, t, rfl, hpre, ht⟩ := oneFinal_shape done items h
+  cases t with
+  | msg m =>
+    have hv : clientView (pre.map Item.msg ++ [Item.msg m]) = (pre ++ [m], none) := by
+      have := client_view_msgs (pre ++ [m])
+      simpa using this
+    have hd : done m = true := by simpa [terminal] using ht
+    rw [hv]
+    refine ⟨?_, by rw [msgsOf_append, msgsOf_map_msg]; rfl, by rw [errsOf_append, errsOf_map_msg]; rfl⟩
+    simp [clientTerminals, List.filter_append, filter_done_nonfinal done pre hpre, hd]
+  | err e =>
+    have he : e.isEmpty = false := hne e (by rw [errsOf_append, errsOf_map_msg]; simp [errsOf, Item.err?])
+    rw [client_view_err pre e [] he]
+    refine ⟨?_, by rw [msgsOf_append, msgsOf_map_msg]; simp [msgsOf, Item.msg?], by rw [errsOf_append, errsOf_map_msg]; rfl⟩
+    simp [clientTerminals, filter_done_nonfinal done pre hpre]
+
+/-! ## Round 7 (review): the headline clauses on the handlers and writers the tree runs -/
+
+/-- the repaired OpenAI stream writers (`oaErr = true`, in /repo) coincide with the pinned ones on a
+    stream without error lines — so `openai_chat_stream_equiv`, `openai_cmpl_stream_equiv`,
+    `openai_*_stream_finish_usage`, `openai_stream_one_done` are statements about the writers the tree runs -/
+theorem oaStreamFixed_eq_pinned (usage : Bool) :
+    (∀ (ms : List ChatMsg) (sent : Bool),
+      oaChatStreamFixed usage (ms.map Item.msg) sent = oaChatStream usage (ms.map Item.msg) sent)
+    ∧ (∀ ms : List GenMsg, oaCmplStreamFixed usage (ms.map Item.msg) = oaCmplStream usage (ms.map Item.msg)) := by
+  constructor
+  · intro ms
+    induction ms with
+    | nil => intro sent; rfl
+    | cons x xs ih =>
+      intro sent
+      simp only [List.map_cons, oaChatStreamFixed, ih]
+      exact (oaChatStream_single_append usage x (xs.map Item.msg) sent).symm
+  · intro ms
+    induction ms with
+    | nil => rfl
+    | cons x xs ih =>
+      simp only [List.map_cons, oaCmplStreamFixed, ih]
+      simp [oaCmplStream, asGen]
+
+theorem oaStreamV_eq_pinned (fixed usage : Bool) :
+    (∀ ms : List ChatMsg, oaChatStreamV fixed usage (ms.map Item.msg) = oaChatStream usage (ms.map Item.msg) false)
+    ∧ (∀ ms : List GenMsg, oaCmplStreamV fixed usage (ms.map Item.msg) = oaCmplStream usage (ms.map Item.msg)) := by
+  obtain ⟨h1, h2⟩ := oaStreamFixed_eq_pinned usage
+  constructor
+  · intro ms; cases fixed <;> simp [oaChatStreamV, h1]
+  · intro ms; cases fixed <;> simp [oaCmplStreamV, h2]
+
+theorem lastOr_mem {α : Type} (d : α) (xs : List α) : lastOr d xs = d ∨ lastOr d xs ∈ xs := by
+  induction xs generalizing d with
+  | nil => exact Or.inl rfl
+  | cons x xs ih =>
+    rcases ih x with h | h
+    · exact Or.inr (by simp [h])
+    · exact Or.inr (by simp [h])
+
+/-- **Stream concatenation = non-stream reply, on the tree's handlers (generate).**  For EVERY variant
+    and every protocol-respecting successful run (every split of every output): the `stream:false` reply
+    of `generateOnceH` is the last message of `generateStreamH`'s stream with `response` := the
+    concatenation of all streamed `response`s (so reason, counts and `context` are the last message's);
+    that concatenation is the output; no error line. -/
+theorem generate_equiv_H (v : Variant) (raw hasCtx : Bool) (pl : Nat) (cs : List Chunk) (h : RunnerOK cs .ok) :
+    ∃ items, generateStreamH v .none raw hasCtx pl cs .ok = .ok items
+      ∧ generateOnceH v .none raw hasCtx pl cs .ok
+          = .ok { lastOr default (msgsOf items) with resp := ((msgsOf items).map (·.resp)).flatten }
+      ∧ ((msgsOf items).map (·.resp)).flatten = texts cs
+      ∧ errsOf items = [] := by
+  obtain ⟨h1, h2⟩ := (handlers_eq_base v .none raw hasCtx pl (fun _ => []) false false cs .ok h).1 rfl (Or.inl rfl)
+  obtain ⟨e1, e2, e3⟩ := generate_equiv raw pl cs
+  exact ⟨_, h1, by rw [h2]; exact e1, e2, e3⟩
+
+/-- **… (chat without tools), on the tree's handlers.** -/
+theorem chat_equiv_H (v : Variant) (parse : Bytes → List Call) (hist : Bool) (cs : List Chunk) (h : RunnerOK cs .ok) :
+    ∃ items, chatStreamH v .none parse false hist cs .ok = .ok items
+      ∧ chatOnceH v .none parse false hist cs .ok
+          = .ok { lastOr default (msgsOf items) with content := ((msgsOf items).map (·.content)).flatten }
+      ∧ ((msgsOf items).map (·.content)).flatten = texts cs
+      ∧ (∀ m ∈ msgsOf items, m.calls = [])
+      ∧ errsOf items = [] := by
+  obtain ⟨h1, h2⟩ := (handlers_eq_base v .none false false 0 parse false hist cs .ok h).2 rfl (by simp)
+  obtain ⟨e1, e2, e3, e4⟩ := chat_equiv parse cs
+  refine ⟨_, h1, ?_, e2, e3, e4⟩
+  rw [h2]
+  unfold chatOnceV
+  rw [e1]
+  have hc : (lastOr (default : ChatMsg) (msgsOf (chatStream parse false cs .ok))).calls = [] := by
+    rcases lastOr_mem (default : ChatMsg) (msgsOf (chatStream parse false cs .ok)) with hh | hh
+    · rw [hh]; rfl
+    · exact e3 _ hh
+  cases v.toolsIndex
+  · rfl
+  · simp [hc, setIdx]
+
+/-- **the OpenAI streaming endpoints carry the native content, on the tree's path**: for every variant,
+    every protocol-respecting successful run without tools: the concatenated deltas of
+    /v1/chat/completions (resp. texts of /v1/completions) are the model output, i.e. the `content` /
+    `text` of the NON-streamed OpenAI reply for the same run. -/
+theorem openai_stream_once_agree (v : Variant) (usage raw hasCtx hist : Bool) (pl : Nat) (parse : Bytes → List Call)
+    (cs : List Chunk) (h : RunnerOK cs .ok) :
+    (∃ items o, chatStreamH v .none parse false hist cs .ok = .ok items
+        ∧ chatOnceH v .none parse false hist cs .ok = .ok o
+        ∧ oaText (oaChatStreamV v.oaErr usage items) = o.content
+        ∧ oaCalls (oaChatStreamV v.oaErr usage items) = o.calls
+        ∧ oaChatOnce (.ok o) = .chat o.info.named (texts cs) [] (nonEmpty? o.info.reason) (usageOf o.info))
+    ∧ (∃ items o, generateStreamH v .none raw hasCtx pl cs .ok = .ok items
+        ∧ generateOnceH v .none raw hasCtx pl cs .ok = .ok o
+        ∧ oaText (oaCmplStreamV v.oaErr usage items) = o.resp
+        ∧ oaCmplOnce (.ok o) = .text (texts cs) (nonEmpty? o.info.reason) (usageOf o.info)) := by
+  constructor
+  · obtain ⟨items, h1, h2, h3, h4, h5⟩ := chat_equiv_H v parse hist cs h
+    have hit : items = (msgsOf items).map Item.msg := by
+      have hb := (handlers_eq_base v .none false false 0 parse false hist cs .ok h).2 rfl (by simp)
+      rw [hb.1] at h1
+      injection h1 with h1
+      subst h1
+      simp [chatStream, chatChan, endItems, msgsOf_map_msg]
+    have hcalls : (lastOr (default : ChatMsg) (msgsOf items)).calls = [] := by
+      rcases lastOr_mem (default : ChatMsg) (msgsOf items) with hh | hh
+      · rw [hh]; rfl
+      · exact h4 _ hh
+    refine ⟨items, _, h1, h2, ?_, ?_, ?_⟩
+    · rw [hit, (oaStreamV_eq_pinned v.oaErr usage).1, (openai_chat_stream_equiv usage _ false).1, msgsOf_map_msg]
+    · rw [hit, (oaStreamV_eq_pinned v.oaErr usage).1, (openai_chat_stream_equiv usage _ false).2.1, msgsOf_map_msg]
+      simp only [hcalls]
+      apply List.flatten_eq_nil_iff.mpr
+      intro l hl
+      obtain ⟨m, hm, rfl⟩ := List.mem_map.mp hl
+      exact h4 m hm
+    · simp [oaChatOnce, hcalls, h3]
+  · obtain ⟨items, h1, h2, h3, h4⟩ := generate_equiv_H v raw hasCtx pl cs h
+    have hit : items = (msgsOf items).map Item.msg := by
+      have hb := (handlers_eq_base v .none raw hasCtx pl parse false hist cs .ok h).1 rfl (Or.inl rfl)
+      rw [hb.1] at h1
+      injection h1 with h1
+      subst h1
+      simp [genStream, genChan, endItems, msgsOf_map_msg]
+    refine ⟨items, _, h1, h2, ?_, ?_⟩
+    · rw [hit, (oaStreamV_eq_pinned v.oaErr usage).2, (openai_cmpl_stream_equiv usage _).1, msgsOf_map_msg]
+    · simp [oaCmplOnce, h3]
+
+/-! ### finish_reason: stream vs non-stream on /v1/chat/completions with tools -/
+
+/-- invariant of the streaming tool path: the builder is empty or does not parse -/
+theorem chatCallback_final_no_calls (parse : Bytes → List Call) (hp : parse [] = []) (init : List Chunk) (l : Chunk)
+    (sb : Bytes) (idx : Nat) (hsb : sb = [] ∨ parse sb = []) (hnd : NoneDone init) (hl : l.done = true) (hlc : l.content = []) :
+    ∃ pre m, chatCallback parse true (init ++ [l]) sb idx = pre ++ [m] ∧ m.calls = [] ∧ m.info = chunkInfo l
+      ∧ (∀ x ∈ pre, Quiet x.info) := by
+  induction init generalizing sb idx with
+  | nil =>
+    have hps : parse (sb ++ l.content) = [] := by
+      rw [hlc, List.append_nil]
+      rcases hsb with rfl | h
+      · exact hp
+      · exact h
+    exact ⟨[], { content := if idx == 0 then sb ++ l.content else l.content, calls := [], info := chunkInfo l },
+      by simp [chatCallback, hps, hl], rfl, rfl, by simp⟩
+  | cons c cs ih =>
+    have hd : c.done = false := hnd c (by simp)
+    have hnd' : NoneDone cs := fun x hx => hnd x (by simp [hx])
+    by_cases h : (parse (sb ++ c.content)).isEmpty = true
+    · have h' : parse (sb ++ c.content) = [] := List.isEmpty_iff.mp h
+      obtain ⟨pre, m, e1, e2, e3, e4⟩ := ih (sb ++ c.content) idx (Or.inr h') hnd'
+      exact ⟨pre, m, by simp [chatCallback, h, hd, e1], e2, e3, e4⟩
+    · obtain ⟨pre, m, e1, e2, e3, e4⟩ := ih [] (idx + (parse (sb ++ c.content)).length) (Or.inl rfl) hnd'
+      refine ⟨{ content := [], calls := setIdx idx (parse (sb ++ c.content)), info := chunkInfo c } :: pre, m,
+        by simp [chatCallback, h, e1], e2, e3, ?_⟩
+      intro x hx
+      rcases List.mem_cons.mp hx with rfl | hx
+      · exact chunkInfo_quiet c hd
+      · exact e4 x hx
+
+/-- **finish_reason agrees between the streamed and the non-streamed /v1/chat/completions** (tools in
+    the request; the tree: F17a present, F17b repaired): protocol-respecting run, empty final message,
+    `parse [] = []`, a `done_reason` that is not the empty string, and the streamed calls equal the
+    non-streamed ones (the right-hand side of `tools_equiv_iff`) ⇒ the last delta's `finish_reason` is the
+    non-streamed reply's: `tool_calls` if there are calls, the native reason otherwise.
+    Without `l.content = []` this is FALSE: `finish_reason_on_done_chunk`. -/
+theorem openai_finish_agree (v : Variant) (hv : v.toolsStream = false) (hi : v.toolsIndex = true)
+    (parse : Bytes → List Call) (hp : parse [] = []) (usage hist : Bool) (init : List Chunk) (l : Chunk)
+    (hnd : NoneDone init) (hl : l.done = true) (hlc : l.content = []) (hr : (reasonStr l.reason).isEmpty = false)
+    (hg : (greedyCalls parse (init ++ [l]) []).map eraseIdx = (parse (texts (init ++ [l]))).map eraseIdx) :
+    ∃ items o f, chatStreamH v .none parse true hist (init ++ [l]) .ok = .ok items
+      ∧ chatOnceH v .none parse true hist (init ++ [l]) .ok = .ok o
+      ∧ (oaFinishes (oaChatStreamV v.oaErr usage items)).getLast? = some f
+      ∧ oaChatOnce (.ok o) = .chat o.info.named o.content o.calls f (usageOf o.info) := by
+  obtain ⟨pre, m, e1, e2, e3, e4⟩ := chatCallback_final_no_calls parse hp init l [] 0 (Or.inl rfl) hnd hl hlc
+  have hcalls := chatCallback_calls_exact parse (init ++ [l]) [] 0
+  have hagg : aggCalls pre = setIdx 0 (greedyCalls parse (init ++ [l]) []) := by
+    rw [← hcalls, e1]; simp [aggCalls, e2]
+  have hstream : chatStreamH v .none parse true hist (init ++ [l]) .ok = .ok ((pre ++ [m]).map Item.msg) := by
+    simp [chatStreamH, Fault.chatPre, chatItemsH, hv, endItemsV, sawDone_snoc init l hl, e1]
+  have hreason : m.info.reason = reasonStr l.reason := by rw [e3]; simp [chunkInfo, hl]
+  have hdone : m.info.done = true := by rw [e3]; simp [chunkInfo, hl]
+  have hq : ∀ x ∈ pre, Quiet x.info := e4
+  refine ⟨_, _, (if (greedyCalls parse (init ++ [l]) []).isEmpty then some (reasonStr l.reason) else some sToolCalls),
+    hstream, chatOnceH_ok_snoc v parse true hist init l hl, ?_, ?_⟩
+  · rw [(oaStreamV_eq_pinned v.oaErr usage).1, List.map_append, oaChatStream_msgs_append, oaFinishes_append,
+      (oaChatStream_quiet usage pre false hq).1]
+    simp only [List.map_cons, List.map_nil, oaChatStream, asChat, hdone, ↓reduceIte, List.append_nil, Bool.false_or]
+    rw [oaFinishes_append]
+    have : oaFinishes ((if usage = true then [OaEv.usage (usageOf m.info)] else []) ++ [OaEv.done]) = [] :=
+      oaTail_finishes usage m.info
+    rw [this]
+    have hr' : reasonStr l.reason ≠ [] := by intro e; simp [e] at hr
+    have hae : (aggCalls pre = []) ↔ (greedyCalls parse (init ++ [l]) [] = []) := by
+      rw [hagg]; cases greedyCalls parse (init ++ [l]) [] <;> simp [setIdx]
+    simp [oaFinishes, OaEv.finish?, hreason, hr', hae]
+  · have hne : (parse (texts (init ++ [l]))).isEmpty = (greedyCalls parse (init ++ [l]) []).isEmpty := by
+      have := congrArg List.length hg
+      simp only [List.length_map] at this
+      cases h1 : parse (texts (init ++ [l])) <;> cases h2 : greedyCalls parse (init ++ [l]) [] <;> simp_all
+    simp only [Bool.true_and, hi, ↓reduceIte, hne, hreason, hagg]
+    cases hgc : (greedyCalls parse (init ++ [l]) []).isEmpty
+    · have : (setIdx 0 (parse (texts (init ++ [l])))).isEmpty = false := by rw [setIdx_isEmpty, hne, hgc]
+      simp [oaChatOnce, chunkInfo, hl, this, setIdx_isEmpty, hgc, nonEmpty?, sToolCalls, hr]
+    · simp [oaChatOnce, chunkInfo, hl, setIdx_isEmpty, hgc, nonEmpty?, hr]
+
+/-- **the gap of `openai_finish_agree`, on record** (model = code: `toChunk` reads `toolCallSent` before
+    `writeResponse` updates it): when the call is completed BY the done chunk's own content, the streamed
+    /v1/chat/completions ends with `finish_reason: "stop"` while the non-streamed reply says `tool_calls`.
+    Not reachable with the real runner, whose final message is empty (and llm/server.go delivers a
+    content+done line as two callbacks); the monitors do not evaluate `openai-finish` there. -/
+theorem finish_reason_on_done_chunk :
+    let v : Variant := ⟨false, true, true, true⟩
+    let l : Chunk := ⟨pieceA, true, 0, 5, 7⟩
+    (oaFinishes (oaChatStreamV v.oaErr false ((chatCallback parseF17 true [l] [] 0).map Item.msg))) = [some sStop]
+    ∧ (chatOnceH v .none parseF17 true false [l] .ok).toOption.map (fun o => oaChatOnce (.ok o))
+        = some (.chat true [] [callA] (some sToolCalls) ⟨5, 7, 12⟩)
+    ∧ (oaFinishes (oaChatStreamV v.oaErr false ((chatCallback parseF17 true [nd pieceA, fin] [] 0).map Item.msg)))
+        = [none, some sToolCalls] := by
+  decide
+
+/-! ### the runner protocol as one named assumption -/
+
+/-- everything `llmServer.Completion` (llm/server.go, NOT among the anchored files, not tied) can do to the
+    callback: content chunks, then one done chunk and nil (`fn(c); return nil`), or an error, or — token
+    repeat abort with a live context, clean EOF — nil without a done chunk.  The handlers are NOT robust
+    outside it (chunks or an error after a done chunk give two terminal items: `runner_protocol_needed`). -/
+def CompletionShape (cs : List Chunk) (e : End) : Prop := RunnerOK cs e ∨ (NoneDone cs ∧ e = .ok)
+
+/-- **exactly one final message or one error for everything `Completion` can do**, the tree's variant
+    (`incomplete = true`), every fault, generate and chat, streamed — and the non-streamed request fails
+    iff the streamed one reports that error. -/
+theorem one_final_all (v : Variant) (hv : v.incomplete = true) (f : Fault) (raw hasCtx : Bool) (pl : Nat)
+    (parse : Bytes → List Call) (tools hist : Bool) (cs : List Chunk) (e : End) (h : CompletionShape cs e) :
+    (match generateStreamH v f raw hasCtx pl cs e with
+      | .error _ => True
+      | .ok items => OneFinal (fun m : GenMsg => m.info.done) items)
+    ∧ (match chatStreamH v f parse tools hist cs e with
+      | .error _ => True
+      | .ok items => OneFinal (fun m : ChatMsg => m.info.done) items)
+    ∧ streamError (generateStreamH v f raw hasCtx pl cs e) = onceError (generateOnceH v f raw hasCtx pl cs e)
+    ∧ streamError (chatStreamH v f parse tools hist cs e) = onceError (chatOnceH v f parse tools hist cs e) := by
+  rcases h with h | ⟨hnd, rfl⟩
+  · exact ⟨one_final_generate_faults v f raw hasCtx pl cs e h, one_final_chat_faults v f parse tools hist cs e h,
+      (generate_outcome_equiv v f raw hasCtx pl cs e h).1, chat_outcome_equiv v f parse tools hist cs e h⟩
+  · obtain ⟨g1, g2⟩ := one_final_generate_fixedD v hv f raw hasCtx pl cs hnd
+    obtain ⟨c1, c2⟩ := one_final_chat_fixedD v hv f parse tools hist cs hnd
+    refine ⟨?_, ?_, g2, c2⟩
+    · cases hs : generateStreamH v f raw hasCtx pl cs .ok with
+      | error m => trivial
+      | ok items => rw [hs] at g1; exact g1.1
+    · cases hs : chatStreamH v f parse tools hist cs .ok with
+      | error m => trivial
+      | ok items => rw [hs] at c1; exact c1.1
+
+theorem runnerOK_err_noneDone {cs : List Chunk} {m : Bytes} (h : RunnerOK cs (.err m)) : NoneDone cs := by
+  generalize he : End.err m = e at h
+  cases h with
+  | done init l _ _ => cases he
+  | fail cs m' hnd => exact hnd
+
+/-- the protocol is necessary, not decorative: an error after the done chunk, or a second done chunk,
+    gives two terminal items on the tree's handlers -/
+theorem runner_protocol_needed :
+    let v : Variant := ⟨false, true, true, true⟩
+    ¬ OneFinal (fun m : GenMsg => m.info.done) (genItemsH v .none false 3 [nd sHi, fin] (.err sBoom))
+    ∧ ¬ OneFinal (fun m : GenMsg => m.info.done) (genItemsH v .none false 3 [nd sHi, fin, fin] .ok)
+    ∧ ¬ CompletionShape [nd sHi, fin] (.err sBoom) := by
+  refine ⟨by decide, by decide, ?_⟩
+  rintro (h | ⟨h, _⟩)
+  · exact absurd (runnerOK_err_noneDone h fin (by simp)) (by decide)
+  · exact absurd (h fin (by simp)) (by decide)
+
+/-- the values of the real `parseToolCalls` on one more accumulated text of the F17 output -/
+def parseF17x (s : Bytes) : List Call := if s = pieceB1 ++ pieceB2 then [callB] else parseF17 s
+
+/-- non-vacuity of `tools_equiv_iff` / `openai_finish_agree` with BOTH sides true on a real split: two
+    calls over three chunks, cut between the calls -/
+example : (greedyCalls parseF17x [nd pieceA, nd (pieceB1 ++ pieceB2), fin] []).map eraseIdx
+        = (parseF17x (texts [nd pieceA, nd (pieceB1 ++ pieceB2), fin])).map eraseIdx
+    ∧ greedyCalls parseF17x [nd pieceA, nd (pieceB1 ++ pieceB2), fin] [] = [callA, callB]
+    ∧ NoneDone [nd pieceA, nd (pieceB1 ++ pieceB2)] ∧ fin.content = [] ∧ parseF17x [] = []
+    ∧ (reasonStr fin.reason).isEmpty = false := by decide
+
+/-! ## Round 7: every request — replies written before the runner is started -/
+
+/-- the new layer adds nothing for the requests the earlier theorems are about: a non-empty request,
+    tools supported, unclassified scheduler error, no `raw`+`context` — steps 1–6 reduce to
+    `Fault.genPre` / `Fault.chatPre` with status 500 -/
+theorem genPreH_plain (q : ReqShape) (hq : q.plain) (raw hasCtx : Bool) (hr : (raw && hasCtx) = false) (f : Fault) :
+    genPreH q raw hasCtx f = match f.genPre hasCtx with | some m => .fail 500 m | none => .go := by
+  obtain ⟨h1, _, h3⟩ := hq
+  cases f <;> cases hasCtx <;> simp_all [genPreH, Fault.genPre, schedStatus, schedMsg]
+
+theorem chatPreH_plain (q : ReqShape) (hq : q.plain) (hist : Bool) (f : Fault) :
+    chatPreH q hist f = match f.chatPre hist with | some m => .fail 500 m | none => .go := by
+  obtain ⟨h1, h2, h3⟩ := hq
+  cases f <;> cases hist <;> simp_all [chatPreH, Fault.chatPre, schedStatus, schedMsg]
+
+/-- when steps 1–6 let the request through, the reply is what the handler models of the earlier rounds
+    produce (so every theorem about `generateStreamH` / `generateOnceH` applies) -/
+theorem generateR_go (v : Variant) (stream : Bool) (q : ReqShape) (f : Fault) (raw hasCtx : Bool) (pl : Nat)
+    (cs : List Chunk) (e : End) (h : genPreH q raw hasCtx f = .go) :
+    f.genPre hasCtx = none
+    ∧ generateR v stream q f raw hasCtx pl cs e
+        = if stream then streamReply (generateStreamH v f raw hasCtx pl cs e)
+          else onceReply (generateOnceH v f raw hasCtx pl cs e) := by
+  refine ⟨?_, by simp [generateR, h]⟩
+  unfold genPreH at h
+  split at h; · cases h
+  split at h; · cases h
+  split at h; · cases h
+  split at h; · cases h
+  split at h
+  · cases h
+  · assumption
+
+theorem chatR_go (v : Variant) (stream : Bool) (q : ReqShape) (f : Fault) (parse : Bytes → List Call) (tools hist : Bool)
+    (cs : List Chunk) (e : End) (h : chatPreH q hist f = .go) :
+    f.chatPre hist = none
+    ∧ chatR v stream q f parse tools hist cs e
+        = if stream then streamReply (chatStreamH v f parse tools hist cs e)
+          else onceReply (chatOnceH v f parse tools hist cs e) := by
+  refine ⟨?_, by simp [chatR, h]⟩
+  unfold chatPreH at h
+  split at h; · cases h
+  split at h; · cases h
+  split at h; · cases h
+  split at h; · cases h
+  split at h
+  · cases h
+  · assumption
+
+/-- **a request that never reaches the runner is answered identically with and without `stream`**:
+    same status, same single body — for every request shape, every fault, every class of scheduler
+    error.  (Steps 1–6 do not look at the stream flag.) -/
+theorem prestream_reply_same (v : Variant) (q : ReqShape) (f : Fault) (raw hasCtx : Bool) (pl : Nat)
+    (parse : Bytes → List Call) (tools hist : Bool) (cs : List Chunk) (e : End) :
+    (genPreH q raw hasCtx f ≠ .go →
+      generateR v true q f raw hasCtx pl cs e = generateR v false q f raw hasCtx pl cs e)
+    ∧ (chatPreH q hist f ≠ .go →
+      chatR v true q f parse tools hist cs e = chatR v false q f parse tools hist cs e) := by
+  constructor
+  · intro h; unfold generateR; cases hp : genPreH q raw hasCtx f <;> simp_all
+  · intro h; unfold chatR; cases hp : chatPreH q hist f <;> simp_all
+
+/-- such a reply is one error body with a 4xx/5xx status or one final (done) message -/
+def SingleFinal {α : Type} (done : α → Bool) : Reply α → Prop
+  | .fail s _ => 400 ≤ s
+  | .body m => done m = true
+  | .stream _ => False
+
+theorem schedStatus_ge (k : SchedErr) : 400 ≤ schedStatus k := by cases k <;> decide
+
+theorem prestream_reply_single (v : Variant) (stream : Bool) (q : ReqShape) (f : Fault) (raw hasCtx : Bool) (pl : Nat)
+    (parse : Bytes → List Call) (tools hist : Bool) (cs : List Chunk) (e : End) :
+    (genPreH q raw hasCtx f ≠ .go →
+      SingleFinal (fun m : GenMsg => m.info.done) (generateR v stream q f raw hasCtx pl cs e))
+    ∧ (chatPreH q hist f ≠ .go →
+      SingleFinal (fun m : ChatMsg => m.info.done) (chatR v stream q f parse tools hist cs e)) := by
+  constructor
+  · intro h
+    unfold generateR
+    cases hp : genPreH q raw hasCtx f with
+    | go => exact absurd hp h
+    | early r => rfl
+    | fail s m =>
+      simp only [SingleFinal]
+      unfold genPreH at hp
+      split at hp; · cases hp
+      split at hp; · cases hp; decide
+      split at hp; · cases hp; exact schedStatus_ge _
+      split at hp; · cases hp
+      split at hp
+      · cases hp; decide
+      · cases hp
+  · intro h
+    unfold chatR
+    cases hp : chatPreH q hist f with
+    | go => exact absurd hp h
+    | early r => rfl
+    | fail s m =>
+      simp only [SingleFinal]
+      unfold chatPreH at hp
+      split at hp; · cases hp
+      split at hp; · cases hp; decide
+      split at hp; · cases hp; exact schedStatus_ge _
+      split at hp; · cases hp
+      split at hp
+      · cases hp; decide
+      · cases hp
+
+/-- **exactly one final message or one error, for EVERY request** (streamed /api/generate and
+    /api/chat): whatever the request shape, the class of scheduler error, the fault and the variant, a
+    protocol-respecting runner yields one error body, one final body, or an NDJSON stream with exactly
+    one terminal item, which is last. -/
+theorem one_final_every_request (v : Variant) (q : ReqShape) (f : Fault) (raw hasCtx : Bool) (pl : Nat)
+    (parse : Bytes → List Call) (tools hist : Bool) (cs : List Chunk) (e : End) (h : RunnerOK cs e) :
+    (match generateR v true q f raw hasCtx pl cs e with
+      | .fail s _ => 400 ≤ s
+      | .body m => m.info.done = true
+      | .stream items => OneFinal (fun m : GenMsg => m.info.done) items)
+    ∧ (match chatR v true q f parse tools hist cs e with
+      | .fail s _ => 400 ≤ s
+      | .body m => m.info.done = true
+      | .stream items => OneFinal (fun m : ChatMsg => m.info.done) items) := by
+  constructor
+  · by_cases hp : genPreH q raw hasCtx f = .go
+    · obtain ⟨h1, h2⟩ := generateR_go v true q f raw hasCtx pl cs e hp
+      rw [h2]
+      have := one_final_generate_faults v f raw hasCtx pl cs e h
+      simp only [↓reduceIte]
+      cases hs : generateStreamH v f raw hasCtx pl cs e with
+      | error m => simp [generateStreamH, h1] at hs
+      | ok items => rw [hs] at this; exact this
+    · have := (prestream_reply_single v true q f raw hasCtx pl parse tools hist cs e).1 hp
+      cases hr : generateR v true q f raw hasCtx pl cs e <;> rw [hr] at this <;> first | exact this | exact this.elim
+  · by_cases hp : chatPreH q hist f = .go
+    · obtain ⟨h1, h2⟩ := chatR_go v true q f parse tools hist cs e hp
+      rw [h2]
+      have := one_final_chat_faults v f parse tools hist cs e h
+      simp only [↓reduceIte]
+      cases hs : chatStreamH v f parse tools hist cs e with
+      | error m => simp [chatStreamH, h1] at hs
+      | ok items => rw [hs] at this; exact this
+    · have := (prestream_reply_single v true q f raw hasCtx pl parse tools hist cs e).2 hp
+      cases hr : chatR v true q f parse tools hist cs e <;> rw [hr] at this <;> first | exact this | exact this.elim
+
+/-- **`keep_alive: 0` with nothing to generate never asks for a runner**: the reply is the `unload`
+    message whatever the scheduler would have answered, streamed or not, on both endpoints. -/
+theorem unload_before_scheduling (v : Variant) (stream : Bool) (q : ReqShape) (he : q.empty = true) (hk : q.keepAlive0 = true)
+    (f : Fault) (raw hasCtx : Bool) (pl : Nat) (parse : Bytes → List Call) (tools hist : Bool) (cs : List Chunk) (e : End) :
+    generateR v stream q f raw hasCtx pl cs e = .body (earlyGen sUnload)
+    ∧ chatR v stream q f parse tools hist cs e = .body (earlyChat sUnload) := by
+  simp [generateR, chatR, genPreH, chatPreH, he, hk]
+
+/-- **the OpenAI endpoints on a request that never reaches the runner**: an error body keeps its
+    status and text; a `load` reply in stream mode is one chunk with `finish_reason: "load"`, the usage
+    chunk if asked for, and `[DONE]` last — exactly one `[DONE]`, no error. -/
+theorem openai_prestream (v : Variant) (stream usage : Bool) (s : Nat) (m r : Bytes) (hr : r.isEmpty = false) :
+    oaChatR v stream usage (.fail s m) = (s, [.error m])
+    ∧ oaCmplR v stream usage (.fail s m) = (s, [.error m])
+    ∧ oaChatR v true usage (.body (earlyChat r))
+        = (200, [.chunk [] [] (some r)] ++ (if usage then [.usage ⟨0, 0, 0⟩] else []) ++ [.done])
+    ∧ oaCmplR v true usage (.body (earlyGen r))
+        = (200, [.tchunk [] (some r) (if usage then some ⟨0, 0, 0⟩ else none)] ++ (if usage then [.usage ⟨0, 0, 0⟩] else []) ++ [.done])
+    ∧ oaChatR v false usage (.body (earlyChat r)) = (200, [.chat true [] [] (some r) ⟨0, 0, 0⟩])
+    ∧ oaCmplR v false usage (.body (earlyGen r)) = (200, [.text [] (some r) ⟨0, 0, 0⟩]) := by
+  refine ⟨rfl, rfl, ?_, ?_, ?_, ?_⟩
+  · cases h : v.oaErr <;> cases usage <;>
+      simp [oaChatR, oaChatStreamV, oaChatStreamFixed, oaChatStream, asChat, earlyChat, earlyInfo, h, hr, usageOf]
+  · cases h : v.oaErr <;> cases usage <;>
+      simp [oaCmplR, oaCmplStreamV, oaCmplStreamFixed, oaCmplStream, asGen, earlyGen, earlyInfo, h, hr, usageOf, nonEmpty?]
+  · simp [oaChatR, oaChatOnce, earlyChat, earlyInfo, hr, usageOf, nonEmpty?]
+  · simp [oaCmplR, oaCmplOnce, earlyGen, earlyInfo, hr, usageOf, nonEmpty?]
+
+
+/-- **through `api.Client`, EVERY request ends with exactly one final message or one error**: whatever
+    the handler wrote (an error body with any status, a single final body, a stream with one terminal
+    item), a caller of `Generate`/`Chat` observes exactly one terminal event — provided error texts are
+    not the empty string and the lines fit the scanner (`client_view_fits`). -/
+theorem client_every_reply {α : Type} [Inhabited α] (done : α → Bool) (r : Reply α)
+    (h : match r with
+         | .fail _ _ => True
+         | .body m => done m = true
+         | .stream items => OneFinal done items)
+    (hne : ∀ e ∈ errsOf r.lines, e.isEmpty = false) :
+    clientTerminals done (clientView r.lines) = 1 := by
+  have hof : OneFinal done r.lines := by
+    cases r with
+    | fail s m => exact ⟨rfl, rfl⟩
+    | body m => exact ⟨by simp [Reply.lines, terminal, h], by simp [Reply.lines, terminal, h]⟩
+    | stream items => exact h
+  exact (client_one_final done r.lines hof hne).1
+
+/-- non-vacuity: every outcome of steps 1–6 occurs, in the order of the code (kernel-evaluated) -/
+example :
+    let q : ReqShape := ⟨false, false, false, sA, sB, .maxQueue⟩
+    genPreH { q with empty := true, keepAlive0 := true } true true (.load sBoom) = .early sUnload
+    ∧ genPreH { q with empty := true } true true (.load sBoom) = .fail 400 sRawCtx
+    ∧ genPreH { q with empty := true } false true (.load sBoom) = .fail 503 sBoom
+    ∧ genPreH { q with empty := true, cls := .notExist } false true (.load sBoom) = .fail 404 (sNotFound1 ++ sA ++ sNotFound2)
+    ∧ genPreH { q with empty := true } false true (.detok sBoom) = .early sLoad
+    ∧ genPreH q false true (.detok sBoom) = .fail 500 sBoom
+    ∧ genPreH q false false (.detok sBoom) = .go
+    ∧ chatPreH { q with noToolSupport := true } true (.load sBoom) = .fail 400 (sB ++ sNoTools)
+    ∧ chatPreH { q with cls := .canceled } true (.load sBoom) = .fail 499 sCanceled
+    ∧ chatPreH { q with empty := true } true (.tok sBoom) = .early sLoad
+    ∧ chatPreH q true (.tok sBoom) = .fail 500 sBoom
+    ∧ chatPreH q false (.tok sBoom) = .go := by decide
 
 end OllamaVerif.C17
